@@ -121,5 +121,193 @@ def generate(repo='/repo'):
     return '\n'.join(lines) + '\n'
 
 
+# ---------------------------------------------------------------------------------------------------------------------------------
+# Property bodies  "return <arithmetic over self attributes>"  ->  Q terms (time bookkeeping of Signal, band bookkeeping of RadioSignal)
+from fractions import Fraction
+
+
+def find_prop(tree, cls, name):
+    """the getter of a property (decorated @property) or a plain method"""
+    for n in tree.body:
+        if isinstance(n, ast.ClassDef) and n.name == cls:
+            for m in n.body:
+                if isinstance(m, ast.FunctionDef) and m.name == name and \
+                   all(not (isinstance(d, ast.Attribute) and d.attr in ('setter', 'deleter')) for d in m.decorator_list):
+                    return m
+    raise Unsupported(f'{cls}.{name} not found')
+
+
+def strip_doc(fn):
+    return [s for s in fn.body if not (isinstance(s, ast.Expr) and isinstance(s.value, ast.Constant) and isinstance(s.value.value, str))]
+
+
+class QEx:
+    """arithmetic expression -> Coq Q term.  attrs: self.<name> -> term ; names: local -> term ; `.to(u.<unit>)` is the identity of the
+    exact model (a unit conversion does not change the quantity) ; len(self) -> lenterm."""
+
+    def __init__(self, attrs, names=None, lenterm=None):
+        self.attrs, self.names, self.lenterm = attrs, dict(names or {}), lenterm
+
+    def q(self, n):
+        if isinstance(n, ast.BinOp):
+            op = {ast.Add: '+', ast.Sub: '-', ast.Mult: '*', ast.Div: '/'}.get(type(n.op))
+            if op is None:
+                raise Unsupported('operator ' + ast.dump(n.op))
+            return f'({self.q(n.left)} {op} {self.q(n.right)})'
+        if isinstance(n, ast.Call) and isinstance(n.func, ast.Attribute) and n.func.attr == 'to' and len(n.args) == 1 and not n.keywords \
+           and isinstance(n.args[0], ast.Attribute) and isinstance(n.args[0].value, ast.Name) and n.args[0].value.id == 'u':
+            return self.q(n.func.value)
+        if isinstance(n, ast.Call) and isinstance(n.func, ast.Name) and n.func.id == 'len' and len(n.args) == 1 and not n.keywords \
+           and isinstance(n.args[0], ast.Name) and n.args[0].id == 'self' and self.lenterm:
+            return self.lenterm
+        if isinstance(n, ast.Attribute) and isinstance(n.value, ast.Name) and n.value.id == 'self' and n.attr in self.attrs:
+            return self.attrs[n.attr]
+        if isinstance(n, ast.Name) and n.id in self.names:
+            return self.names[n.id]
+        if isinstance(n, ast.Constant) and isinstance(n.value, int) and not isinstance(n.value, bool):
+            return f'inject_Z ({n.value})'
+        if isinstance(n, ast.Constant) and isinstance(n.value, float):
+            f = Fraction(n.value)
+            return f'(({f.numerator}) # {f.denominator})'
+        raise Unsupported('expression ' + ast.dump(n))
+
+
+def single_return(fn):
+    body = strip_doc(fn)
+    if len(body) != 1 or not isinstance(body[0], ast.Return):
+        raise Unsupported(f'{fn.name}: expected a single return statement')
+    return body[0].value
+
+
+LEDGER_ATTRS = {'sample_rate': 'rate l'}
+
+
+def generate_ledger_props(tree):
+    out = []
+    ex = QEx(LEDGER_ATTRS, lenterm='inject_Z (len l)')
+    out.append(f'Definition gen_dt (l : ledger) : Q := {ex.q(single_return(find_prop(tree, "Signal", "dt")))}%Q.')
+    out.append(f'Definition gen_time_length (l : ledger) : Q := {ex.q(single_return(find_prop(tree, "Signal", "time_length")))}%Q.')
+    # stop_time:  if self.start_time is None: return None ; return self.start_time + self.time_length
+    b = strip_doc(find_prop(tree, 'Signal', 'stop_time'))
+    want0 = "If(test=Compare(left=Attribute(value=Name(id='self', ctx=Load()), attr='start_time', ctx=Load()), ops=[Is()], comparators=[Constant(value=None)]), body=[Return(value=Constant(value=None))], orelse=[])"
+    if len(b) != 2 or ast.dump(b[0]) != want0 or not isinstance(b[1], ast.Return):
+        raise Unsupported('stop_time body')
+    ex2 = QEx({'start_time': 't', 'time_length': 'gen_time_length l'})
+    out.append(f'Definition gen_stop_time (l : ledger) : option Q := match t0 l with None => None | Some t => Some {ex2.q(b[1].value)}%Q end.')
+    return out
+
+
+def generate_band(repo='/repo'):
+    """RadioSignal: bandwidth, max_freq, min_freq, channel_freqs (per element) and _freq_slice -> Gen/GenBand.v"""
+    tree = ast.parse(pathlib.Path(repo, 'pulsarbat', 'core.py').read_text())
+    attrs = {'center_freq': 'cf b', 'chan_bw': 'bw b', 'nchan': 'inject_Z (nchan b)'}
+    out = ['(* GENERATED by translate/py_ledger2coq.py from RadioSignal (core.py) -- do not edit *)',
+           'From Coq Require Import ZArith QArith Bool String.', 'From PB Require Import Model.Band.', 'Open Scope Z_scope.']
+    ex = QEx(attrs)
+    out.append(f'Definition gen_bandwidth (b : band) : Q := {ex.q(single_return(find_prop(tree, "RadioSignal", "bandwidth")))}%Q.')
+    ex = QEx(dict(attrs, bandwidth='gen_bandwidth b'))
+    out.append(f'Definition gen_max_freq (b : band) : Q := {ex.q(single_return(find_prop(tree, "RadioSignal", "max_freq")))}%Q.')
+    out.append(f'Definition gen_min_freq (b : band) : Q := {ex.q(single_return(find_prop(tree, "RadioSignal", "min_freq")))}%Q.')
+    # channel_freqs:  _align = {...}[self.freq_align] ; chan_ids = np.arange(self.nchan) + _align - self.nchan / 2 ; return cf + bw * chan_ids
+    body = strip_doc(find_prop(tree, 'RadioSignal', 'channel_freqs'))
+    if len(body) != 3:
+        raise Unsupported('channel_freqs: expected three statements')
+    a0, a1, r = body
+    if not (isinstance(a0, ast.Assign) and len(a0.targets) == 1 and isinstance(a0.targets[0], ast.Name) and isinstance(a0.value, ast.Subscript)
+            and isinstance(a0.value.value, ast.Dict) and ast.dump(a0.value.slice) == "Attribute(value=Name(id='self', ctx=Load()), attr='freq_align', ctx=Load())"):
+        raise Unsupported('channel_freqs: first statement ' + ast.dump(a0))
+    al = a0.targets[0].id          # the table itself is generated by T2 (align_table) ; align_q looks the name up in it
+    if not (isinstance(a1, ast.Assign) and len(a1.targets) == 1 and isinstance(a1.targets[0], ast.Name)):
+        raise Unsupported('channel_freqs: second statement')
+    ids = a1.targets[0].id
+
+    class Elem(QEx):               # element i of the array expression: np.arange(self.nchan) -> i
+        def q(self, n):
+            if ast.dump(n) == "Call(func=Attribute(value=Name(id='np', ctx=Load()), attr='arange', ctx=Load()), args=[Attribute(value=Name(id='self', ctx=Load()), attr='nchan', ctx=Load())], keywords=[])":
+                return 'inject_Z i'
+            return super().q(n)
+    e1 = Elem(attrs, {al: 'align_q (align b)'})
+    ids_term = e1.q(a1.value)
+    if not isinstance(r, ast.Return):
+        raise Unsupported('channel_freqs: third statement')
+    out.append(f'Definition gen_label (b : band) (i : Z) : Q := {Elem(attrs, {ids: ids_term}).q(r.value)}%Q.')
+    # _freq_slice
+    fn = find_method(tree, 'RadioSignal', '_freq_slice')
+    if [a.arg for a in fn.args.args] != ['self', 'index']:
+        raise Unsupported('signature of _freq_slice')
+    body = strip_doc(fn)
+    if len(body) != 5:
+        raise Unsupported('_freq_slice: expected five statements')
+    s0, g1, g2, fa, ret = body
+    if not (isinstance(s0, ast.Assign) and isinstance(s0.targets[0], ast.Name)):
+        raise Unsupported('_freq_slice: first statement')
+    sl = s0.targets[0].id
+    want = "Assign(targets=[Name(id=%r, ctx=Store())], value=Call(func=Name(id='slice', ctx=Load()), args=[Starred(value=Call(func=Attribute(value=Name(id='index', ctx=Load()), attr='indices', ctx=Load()), args=[Subscript(value=Attribute(value=Name(id='self', ctx=Load()), attr='shape', ctx=Load()), slice=Constant(value=1), ctx=Load())], keywords=[]), ctx=Load())], keywords=[]))" % sl
+    if ast.dump(s0) != want:
+        raise Unsupported('_freq_slice: first statement is not  s = slice(*index.indices(self.shape[1]))')
+    V = {'start': 'lo', 'stop': 'hi', 'step': 'st'}
+
+    def zterm(n):
+        if isinstance(n, ast.Attribute) and isinstance(n.value, ast.Name) and n.value.id == sl and n.attr in V:
+            return V[n.attr]
+        if isinstance(n, ast.Constant) and isinstance(n.value, int) and not isinstance(n.value, bool):
+            return f'({n.value})'
+        raise Unsupported('integer term ' + ast.dump(n))
+
+    def zcond(n):
+        if isinstance(n, ast.Compare) and len(n.ops) == 1:
+            a, b2 = zterm(n.left), zterm(n.comparators[0])
+            t = type(n.ops[0])
+            if t is ast.Eq:
+                return f'({a} =? {b2})'
+            if t is ast.Gt:
+                return f'({b2} <? {a})'
+            if t is ast.Lt:
+                return f'({a} <? {b2})'
+            if t is ast.GtE:
+                return f'({b2} <=? {a})'
+            if t is ast.LtE:
+                return f'({a} <=? {b2})'
+        raise Unsupported('condition ' + ast.dump(n))
+    if not (isinstance(g1, ast.Assert) and isinstance(g2, ast.Assert)):
+        raise Unsupported('_freq_slice: expected two assertions')
+    out.append(f'Definition gen_fs_guard1 (lo hi st : Z) : bool := {zcond(g1.test)}.')
+    out.append(f'Definition gen_fs_guard2 (lo hi st : Z) : bool := {zcond(g2.test)}.')
+    wantf = "Subscript(value=Attribute(value=Name(id='self', ctx=Load()), attr='channel_freqs', ctx=Load()), slice=Name(id=%r, ctx=Load()), ctx=Load())" % sl
+    if not (isinstance(fa, ast.Assign) and isinstance(fa.targets[0], ast.Name) and ast.dump(fa.value) == wantf):
+        raise Unsupported('_freq_slice: fourth statement is not  f = self.channel_freqs[s]')
+    f = fa.targets[0].id
+
+    class FEx(QEx):                # f = channel_freqs[lo:hi:1] (non-empty by guard 2): f[0] is label lo, f[-1] is label hi-1
+        def q(self, n):
+            if isinstance(n, ast.Subscript) and isinstance(n.value, ast.Name) and n.value.id == f:
+                i = n.slice
+                if isinstance(i, ast.Constant) and i.value == 0:
+                    return 'gen_label b lo'
+                if isinstance(i, ast.UnaryOp) and isinstance(i.op, ast.USub) and isinstance(i.operand, ast.Constant) and i.operand.value == 1:
+                    return 'gen_label b (hi - 1)'
+                raise Unsupported('index into the sliced labels ' + ast.dump(i))
+            return super().q(n)
+    if not (isinstance(ret, ast.Return) and isinstance(ret.value, ast.Dict) and
+            [k.value if isinstance(k, ast.Constant) else None for k in ret.value.keys] == ['center_freq', 'freq_align']):
+        raise Unsupported('_freq_slice: returned keys')
+    cfv, alv = ret.value.values
+    if not (isinstance(alv, ast.Constant) and isinstance(alv.value, str)):
+        raise Unsupported('_freq_slice: freq_align value')
+    out.append(f'Definition gen_fs_center (b : band) (lo hi st : Z) : Q := {FEx(attrs).q(cfv)}%Q.')
+    out.append(f'Definition gen_fs_align : string := "{alv.value}"%string.')
+    return '\n'.join(out) + '\n'
+
+
+_generate_ts = generate
+
+
+def generate(repo='/repo'):
+    text = _generate_ts(repo)
+    tree = ast.parse(pathlib.Path(repo, 'pulsarbat', 'core.py').read_text())
+    return text + '\n'.join(generate_ledger_props(tree)) + '\n'
+
+
 if __name__ == '__main__':
     sys.stdout.write(generate(sys.argv[1] if len(sys.argv) > 1 else '/repo'))
+    sys.stdout.write(generate_band(sys.argv[1] if len(sys.argv) > 1 else '/repo'))
